@@ -50,6 +50,7 @@ class Spec:
     corpus: bool = True
     edge_in_domain: bool = False                        # C13: the edge stream is inside the quantifier
     image_folder: bool = False
+    part_level: bool = False                             # also compare each part's MERGED element tree with the model
 
 
 SPECS: dict[str, Spec] = {}
@@ -181,6 +182,43 @@ def scan_features(data: bytes) -> set:
     return out
 
 
+def part_level_corr(model, data):
+    """merged element tree, record tree, comment ranges of every content part: model vs /repo"""
+    import warnings
+    from lxml import etree
+    import impl_part
+    from diff_parts import canon as canon_part
+    from docx2python.docx_reader import DocxReader
+    with warnings.catch_warnings():
+        warnings.simplefilter("ignore")
+        for html in (False, True):
+            reader = DocxReader(io.BytesIO(data), html=html)
+            try:
+                try:
+                    files = reader.files_of_type()
+                except Exception:  # noqa: BLE001
+                    return None
+                for f in files:
+                    intern = common.Interner()
+                    try:
+                        raw = etree.fromstring(reader.zipf.read(f.path))
+                        case = impl_part.model_case_for_file(reader, f, raw, intern)
+                    except Exception:  # noqa: BLE001
+                        continue
+                    r = impl_part.observe_file(f, intern)
+                    if isinstance(r, tuple):
+                        r = r[0]
+                    m = model.run(case)
+                    if canon_part(r) != canon_part(m):
+                        d = first_diff(canon_part(r), canon_part(m))
+                        what = "merged element tree" if d and d[0][:2] == (1, 0) else "part observation"
+                        return {"opts": [html, True], "part": f.path, "what": what, "at": list(d[0]) if d else None,
+                                "impl": repr(d[1])[:200] if d else None, "model": repr(d[2])[:200] if d else None}
+            finally:
+                reader.close()
+    return None
+
+
 def eval_case(state, arg):
     prop, stream, sub = arg
     spec = SPECS[prop]
@@ -214,6 +252,8 @@ def eval_case(state, arg):
                 res["corr"] = {"opts": [html, dup], "at": list(d[0]) if d else None,
                                "impl": repr(d[1])[:300] if d else None,
                                "model": repr(d[2])[:300] if d else None}
+    if spec.part_level and state["model"] is not None and res["corr"] is None:
+        res["corr"] = part_level_corr(state["model"], data)
     ctx = {"pkg": pkg, "data": data, "per": {k: Obs(v[0]) for k, v in per.items()},
            "features": feats, "payloads": payloads, "stream": stream}
     res["exc"] = sum(1 for o in ctx["per"].values() if o.any_exc())
